@@ -408,6 +408,73 @@ def gen_beam_tables():
 EXTRA.append(("BeamTables.v", ["C10", "C02"], gen_beam_tables))
 
 
+
+
+# ---- every `raise` of the package with the chain of conditions that guards it (C20) ---------------------------------
+RAISE_EXCLUDE = ("openaerostruct/utils/testing.py", "openaerostruct/docs", "openaerostruct/examples", "openaerostruct/tests")
+
+
+def _guards(path_to_raise):
+    """path_to_raise: list of (node, field, index) from the function body down to the raise statement"""
+    out = []
+    for node, field in path_to_raise:
+        if isinstance(node, ast.If):
+            txt = ast.unparse(node.test)
+            out.append(txt if field == "body" else "not (%s)" % txt)
+        elif isinstance(node, (ast.For, ast.While)):
+            out.append("loop: " + (ast.unparse(node.target) + " in " + ast.unparse(node.iter) if isinstance(node, ast.For) else ast.unparse(node.test)))
+        elif isinstance(node, ast.Try):
+            out.append("try/" + field)
+        elif isinstance(node, ast.With):
+            out.append("with")
+    return out
+
+
+def gen_raise_sites():
+    root = os.path.join(REPO, "openaerostruct")
+    files = []
+    for d, _, fs in os.walk(root):
+        for f in fs:
+            if f.endswith(".py"):
+                rel = os.path.relpath(os.path.join(d, f), REPO)
+                if not any(rel.startswith(x) for x in RAISE_EXCLUDE):
+                    files.append(rel)
+    sites = []
+    for rel in sorted(files):
+        t, src = tree(rel)
+
+        def walk(node, qual, path):
+            for field, value in ast.iter_fields(node):
+                items = value if isinstance(value, list) else [value]
+                for ch in items:
+                    if not isinstance(ch, ast.AST):
+                        continue
+                    if isinstance(ch, (ast.FunctionDef, ast.AsyncFunctionDef, ast.ClassDef)):
+                        walk(ch, qual + [ch.name], [])
+                    elif isinstance(ch, ast.Raise):
+                        exc = ch.exc
+                        if exc is None:
+                            name = "(re-raise)"
+                        elif isinstance(exc, ast.Call):
+                            name = ast.unparse(exc.func)
+                        else:
+                            name = ast.unparse(exc)
+                        sites.append((rel.replace("openaerostruct/", ""), ".".join(qual) or "<module>", name, _guards(path + [(node, field)])))
+                    else:
+                        walk(ch, qual, path + [(node, field)])
+        walk(t, [], [])
+
+    def q(s):
+        return '"' + s.replace('"', '""') + '"'
+    rows = ["  (%s, %s, %s, [%s])" % (q(f), q(fn), q(e), "; ".join(q(g) for g in gs)) for f, fn, e, gs in sites]
+    return ("(* GENERATED by harness/translate.py - do not edit: every raise statement of the package (outside utils/testing.py,\n   docs, examples) with the chain of conditions that guards it, as source text *)\n"
+            "From Coq Require Import String List.\nImport ListNotations.\nOpen Scope string_scope.\n"
+            "Definition gen_raise_sites : list (string * string * string * list string) := [\n%s\n].\n" % ";\n".join(rows))
+
+
+EXTRA.append(("RaiseSites.v", ["C20"], gen_raise_sites))
+
+
 if __name__ == "__main__":
     ok, log = run()
     print(log)
